@@ -266,6 +266,38 @@ func genOpts(r *vlib.R, spec polSpec, ecsPct int, ecsBase []byte, nooptOK bool) 
 	return strings.Join(parts, ",")
 }
 
+// genOptsWire: options that survive the wire round trip unchanged and that the
+// strict packet parser admits: at most one cookie of 8..40 bytes, NSID,
+// padding, keepalive, and a subnet option in the decoder's own form (16-byte
+// address, nothing beyond the netmask).
+func genOptsWire(r *vlib.R, spec polSpec, base []byte) string {
+	var parts []string
+	if r.Chance(1, 2) {
+		parts = append(parts, "O10."+vlib.Hex(r.Bytes(vlib.Pick(r, []int{8, 16, 24, 40}))))
+	}
+	for i := 0; i < r.Intn(3); i++ {
+		parts = append(parts, vlib.Pick(r, []string{"O3.x", "O11.x", fmt.Sprintf("O12.%d", r.Intn(30))}))
+	}
+	if r.Chance(9, 10) {
+		fam, w, code := 4, 32, 1
+		if len(base) == 16 {
+			fam, w, code = 6, 128, 2
+		}
+		m := min(genMask(r, spec, fam), w)
+		a := maskBytes(base, m)
+		if fam == 4 {
+			a = mapped16(a)
+		}
+		e := fmt.Sprintf("E%d.%d.0.%s", code, m, vlib.Hex(a))
+		at := r.Intn(len(parts) + 1)
+		parts = append(parts[:at], append([]string{e}, parts[at:]...)...)
+	}
+	if len(parts) == 0 {
+		return "-"
+	}
+	return strings.Join(parts, ",")
+}
+
 func lastECS(opts string) (optT, bool) {
 	os, _ := parseOpts(opts)
 	var out optT
@@ -473,9 +505,13 @@ func genPipeCase(r *vlib.R, emit func(string)) int {
 	}
 	q := func(qid int) {
 		s := vlib.Pick(r, sites)
+		proto := vlib.Pick(r, []string{"udp", "udp", "tcp", "doh", "wudp", "wudp", "wtcp"})
 		copts := genOpts(r, spec, 90, s.ecs, true)
+		if proto[0] == 'w' {
+			copts = genOptsWire(r, spec, s.ecs)
+		}
 		ttl := vlib.Pick(r, []int{300, 301, 600, 3599, 3600, 3601, 86400})
-		emit(fmt.Sprintf("pipe q %s %s %d %s %s %d %s %d", s.client, vlib.Pick(r, []string{"udp", "udp", "tcp", "doh"}),
+		emit(fmt.Sprintf("pipe q %s %s %d %s %s %d %s %d", s.client, proto,
 			qid, vlib.B(r.Chance(1, 10)), copts, ttl, genUpstream(r, spec, copts), next()))
 		count++
 	}
@@ -610,6 +646,9 @@ func genExhaustive(emit func(string), tier string) {
 }
 
 func gen(r *vlib.R, n int, tier string, emit func(string)) {
+	// vlib seeds k and k+1 are the same Weyl sequence one step apart; re-key
+	// through the output mixer so neighbouring seeds explore different cases.
+	r = vlib.NewR(r.U64())
 	genExhaustive(emit, tier)
 	for n > 0 {
 		if r.Chance(1, 2) {
